@@ -2309,9 +2309,23 @@ private:
             return std::pair<iterator, bool>(iterator(leaf, slot), false);
         }
 
+        // the argument may refer to an element stored in this leaf
+        // (insert(*it)); follow that element through the split and the shift.
+        const value_type* src = &value;
+        std::less<const value_type*> before;
+
         if (leaf->is_full())
         {
             split_leaf_node(leaf, splitkey, splitnode);
+
+            // the upper half now lives in the sibling, its old slots are
+            // stale and will be overwritten
+            if (!before(src, leaf->slotdata + leaf->slotuse) &&
+                before(src, leaf->slotdata + leaf_slotmax))
+            {
+                src = static_cast<LeafNode*>(*splitnode)->slotdata +
+                      (src - (leaf->slotdata + leaf->slotuse));
+            }
 
             // check if insert slot is in the split sibling node
             if (slot >= leaf->slotuse)
@@ -2324,18 +2338,24 @@ private:
         // move items and put data item into correct data slot
         TLX_BTREE_ASSERT(slot >= 0 && slot <= leaf->slotuse);
 
+        // the shift below moves the element one slot up
+        if (!before(src, leaf->slotdata + slot) &&
+            before(src, leaf->slotdata + leaf->slotuse))
+            ++src;
+
         std::copy_backward(leaf->slotdata + slot,
                            leaf->slotdata + leaf->slotuse,
                            leaf->slotdata + leaf->slotuse + 1);
 
-        leaf->slotdata[slot] = value;
+        leaf->slotdata[slot] = *src;
         leaf->slotuse++;
 
         if (splitnode && leaf != *splitnode && slot == leaf->slotuse - 1)
         {
             // special case: the node was split, and the insert is at the
-            // last slot of the old node. then the splitkey must be updated.
-            *splitkey = key;
+            // last slot of the old node. then the splitkey must be updated
+            // (from the stored copy: key may refer to the shifted element).
+            *splitkey = leaf->key(slot);
         }
 
         return std::pair<iterator, bool>(iterator(leaf, slot), true);
@@ -2680,14 +2700,17 @@ public:
     //! implemented using erase_one().
     size_type erase(const key_type& key)
     {
+        if (!allow_duplicates)
+            return erase_one(key) ? 1 : 0;
+
+        // the argument may refer to a key stored in this tree (erase(*it)):
+        // after the first erase_one() that slot holds another key or its
+        // node is freed, so loop on a copy.
+        const key_type k(key);
         size_type c = 0;
 
-        while (erase_one(key))
-        {
+        while (erase_one(k))
             ++c;
-            if (!allow_duplicates)
-                break;
-        }
 
         return c;
     }
